@@ -254,13 +254,14 @@ CLAIMED = {
         "WHILE records, and -- when nothing refers to it and code follows it -- the linked program has the same instructions, DATA and direct-code address; "
         "the same relation holds when the statements of one line are given as two consecutive lines; a direct line of address-free instructions (what LET, "
         "PRINT, DIM, SWAP, ERASE, DEFtype, MID$=, CLS compile to) closed by END runs the same, event for event, whatever program and listing are in memory "
-        "and wherever its code sits behind them (Props/C20.v, Proofs/Reloc.v, SymSeg.v, EmptyLine.v, DirectShift.v).",
+        "and wherever its code sits behind them; no instruction reads the linked program's symbol table, so machines that differ in it alone run the "
+        "same, event for event, while they do not trace (Props/C20.v, Proofs/Reloc.v, SymSeg.v, EmptyLine.v, DirectShift.v, SymLens.v).",
         "generated programs under REM / empty / unreachable line insertion, line splitting, other numberings (including from line 0 with references to the "
         "first line), extra program text behind a direct statement, direct vs one-line-program execution, on model and crate; transcripts must agree modulo "
         "reported line numbers.",
-        "PARTIAL: renumbering, unreachable code, direct lines that branch or loop with another program in memory, and that the run of the linked "
-        "program reports the same thing modulo line numbers (the theorems give identical instructions, not yet identical runs) are decided by the "
-        "relational monitor, not proved.",
+        "PARTIAL: renumbering, unreachable code, direct lines that branch or loop with another program in memory, and the glue between the two "
+        "halves for inserted lines (that RUN of the longer listing builds a machine differing from the other in symbol table and listing only) are "
+        "decided by the relational monitor, not proved.",
         "Coq theorems on append and link + layout-transformation relational check"),
 }
 
